@@ -471,6 +471,64 @@ def run(chk):
         check_tlwe_monomial(chk, v)
 
 
+def tlwe_monomial_by_interpretation(chk, v, f):
+    """tLweMulByXaiMinusOne interpreted with the coefficients of bk as indeterminates (sa/concrete.PolyState; b is component k of the
+    mask array, established by the TLweSample constructor, C03.R3) for k in 1..3, N in 1..4, ai in [0, 2N); the library's polynomial
+    routine acts by its specification (C11.R1).  -> None or a witness"""
+    from sa import concrete, symexec
+    res, ai, bk, par = [p["n"] for p in f.params]
+    K, Nn, A = P(par, "k"), P(par, "N"), sym.sym(ai)
+    effs = symexec.run_function(v, f, hooks=summ.LOCAL_HELPERS)[0]
+    for kv in (1, 2, 3):
+        def alias(loc, kv=kv):
+            r_, path = loc
+            if len(path) >= 3 and path[0] == 0 and path[1] == "b" and path[2] == 0:
+                return r_, (0, "a", kv) + tuple(path[3:])
+            return loc
+        for nv in (1, 2, 3, 4):
+            for av in range(2 * nv):
+                st = concrete.PolyState(alias=alias)
+                coef = lambda ptr, j_, env: (lambda rp: (rp[0], rp[1] + ("coefsT", j_)))(concrete.location(ptr, env))
+
+                def h(kind, x, env):
+                    if kind in ("local", "store"):
+                        st.assign(x, env)
+                    elif kind == "call" and x["name"] in ("torusPolynomialMulByXaiMinusOne", "torusPolynomialMulByXai"):
+                        a_ = x["args"]
+                        e_ = concrete.eval_term(a_[1], env)
+                        if e_ is None or not 0 <= e_ < 2 * nv:
+                            raise concrete.NotEvaluable("exponent %s = %s outside [0, 2N)" % (sym.show(a_[1])[:40], e_))
+                        src = [st.read(coef(a_[2], j_, env)) for j_ in range(nv)]
+                        if any(s_ is None for s_ in src):
+                            raise concrete.NotEvaluable("source polynomial is not a number")
+                        for j_ in range(nv):
+                            q = (j_ - e_) % (2 * nv)
+                            val = concrete.lin_add({}, src[q % nv], -1 if q >= nv else 1)
+                            if x["name"].endswith("MinusOne"):
+                                val = concrete.lin_add(val, src[j_], -1)
+                            st.write(coef(a_[0], j_, env), val)
+                    elif kind == "call" and x.get("noreturn"):
+                        pass
+                    elif kind in ("call", "asm", "unknown", "alloc", "delete"):
+                        raise concrete.NotEvaluable("%s %s at line %s" % (kind, x.get("name", ""), x.get("l")))
+                    return None
+                try:
+                    concrete.interpret(effs, {K: kv, Nn: nv, A: av}, h, on_segment=st.segment)
+                except concrete.NotEvaluable as e:
+                    chk.broken("tLweMulByXaiMinusOne: not one library call per component; by interpretation: %s" % e)
+                for i_ in range(kv + 1):
+                    for j_ in range(nv):
+                        got = st.read(concrete.lvalue_location(sym.idx(sym.fld(sym.idx(P(res, "a"), I(i_)), "coefsT"), I(j_)), {}))
+                        q = (j_ - av) % (2 * nv)
+                        at = lambda jj: ("init", concrete.lvalue_location(sym.idx(sym.fld(sym.idx(P(bk, "a"), I(i_)), "coefsT"), I(jj)), {}))
+                        want = concrete.lin_add({(at(q % nv),): -1 if q >= nv else 1}, {(at(j_),): 1}, -1)
+                        norm = lambda d: {m: c % (1 << 32) for m, c in d.items() if c % (1 << 32)}
+                        if got is None or norm(got) != norm(want):
+                            return "with k = %d, N = %d, ai = %d: coefficient %d of component %d is %s, (X^ai - 1)*bk has %s there" % (
+                                kv, nv, av, j_, i_, "not a number" if got is None else concrete.show_poly(got, 3), concrete.show_poly(want, 3))
+    return None
+
+
 def check_tlwe_monomial(chk, v):
     """R7: tLweMulByXaiMinusOne applies (X^ai - 1) to every one of the k+1 components: the polynomial routine (whose map
     C11.R1 decides for 0 <= a < 2N) is called on (&result->a[i], e, &bk->a[i]) for i in [0, k], where the exponent e is ai
@@ -488,7 +546,12 @@ def check_tlwe_monomial(chk, v):
     key = "tLweMulByXaiMinusOne multiplies each of the k+1 components by X^ai - 1 for every ring degree"
     problems = []
     if len(calls) != 1 or other or len(calls[0]["loops"]) != 1 or calls[0]["guards"]:
-        chk.broken("tLweMulByXaiMinusOne: expected one unconditional polynomial call in a loop over the components")
+        # not one library call per component (the rotation written out, a peeled body, helpers): by interpretation
+        wit = tlwe_monomial_by_interpretation(chk, v, f)
+        chk.require(wit is None, "R7", key, where=f.where, ok="interpreted for k in 1..3, N in 1..4 and every ai in [0, 2N): component i of the result is "
+                    "(X^ai - 1) * component i of bk, for all k+1 components", bad=wit or "", variant=vn)
+        chk.vcount(vn, "R7.tlwe_monomial_functions")
+        return
     c = calls[0]
     lp = c["loops"][0]
     i = lp["var"]
